@@ -165,6 +165,21 @@ CLAIMED = {
         note="Trusted: TLC; fresh classes per history (class-level caching across instances is C10's subject); policies "
              "limited to Int, Str, Any, ReadOnly, Constant, Event, Disallow, Python, getter-only Property.",
         design="4/C13"),
+    "C14": dict(
+        technique=TLA + "Persist.tla specifies the object state, Copy and the operations; recorded histories CONTINUE on "
+                  "the copy (so an unbound container, a lost observer or a stale property is a rejected step), judged by "
+                  "TLC; CTraitTables.tla models the handler tables and the getstate/setstate index protocol (TLC proves "
+                  "every search stays inside its table - and reproduces F3 on the unrepaired table) and is bound to the "
+                  "real CTrait API; every Validate.tla configuration is round-tripped as a trait definition and the C01 "
+                  "replay repeated on the copy",
+        text="Histories over scalar / List / List(List) / Dict(Str, List) / Set / Instance / List(Instance) with aliasing "
+             "/ transient / ReadOnly / declared observers (incl. post_init) / cached property, copied at random points by "
+             "pickle protocols 0-5, deepcopy and clone_traits (None, shallow, deep); 112 handler configurations; ~15k "
+             "validation cases on pickled and deep-copied trait definitions.",
+        note="Trusted: TLC; definitions that pickle refuses cleanly (lambdas, shadowed singletons) are outside the "
+             "quantifier; Dict traits are reference-copied by clone/deepcopy unless copy='deep' is declared (documented "
+             "default, containers are still re-wrapped). F3 fixed in /repo.",
+        design="4/C14"),
     "C15": dict(
         technique=TLA + "TLC computes the complete bounded language of the documented grammar with parse trees and "
                   "denotations (ObserveDSL.tla) and checks its well-formedness laws; every member is compiled by the real "
